@@ -45,7 +45,8 @@ Theorem C15_rl_windows_decode :
   forall (A : Type) (ev : list Z) (vs : list A) (ss es : list Z),
        length ev = length vs ->
        strictly_increasing (0 :: ev) ->
-       Forall (fun se : Z * Z => 0 <= fst se /\ fst se < snd se <= last (0 :: ev) 0) (combine ss es) ->
+       Forall (fun se : Z * Z => 0 <= fst se /\ (fst se < snd se -> snd se <= last (0 :: ev) 0))
+         (combine ss es) ->
        length ss = length es ->
        map (decode A) (rl_windows (0 :: ev, vs) ss es) =
        map2 (fun s e : Z => ztake (e - s) (zdrop s (decode A (0 :: ev, vs)))) ss es.
